@@ -40,7 +40,8 @@ def run(tier):
             V.violation(f"{PID}|history|{'csd' if case['iscsd'] else 'auto'}|nf={len(case['bins'])}|{opk}|{name}|{str(p[3]).split(' ')[0]}",
                         {"kind": "result_history", "case": case, "hist": h, "problem": p,
                          "message": f"history {[(o['op'], o['name']) for o in h]} on {'csd' if case['iscsd'] else 'auto'} result with {len(case['bins'])} bins: {p}"})
-    V.add("traces_validated_against_impl", 0)
+    # recorded analyses at scale: the view identities per bin
+    R.run_traces(V, PID, tier, common.seed(), lambda rnd: [("alone",)], n_quick=8, n_thorough=48)
     V.set("histories_replayed", len(items))
     if hists:
         V.sample({"history": hists[len(hists) // 2][1], "on_result": hists[len(hists) // 2][0]})
@@ -56,6 +57,8 @@ def replay(payload):
         case["exp"] = {payload["name"]: payload["expected_def"]}
         case["measure"] = {}
         probs = rc.replay_grid_case(case)
+    elif payload["kind"] == "result_trace":
+        return R.replay_trace(payload)
     else:
         probs = rc.replay_history((payload["case"], payload["hist"]))
     for p in probs:
